@@ -105,6 +105,19 @@ func run(args []string) int {
 			fc := p.cs.Funcs[name]
 			if args[0] == "dump" {
 				e := newEnc(p, fn, fc)
+				if cv := os.Getenv("GVC_CASEVALS"); cv != "" {
+					for _, x := range strings.Split(cv, ",") {
+						var v int64
+						fmt.Sscan(x, &v)
+						e.caseVals = append(e.caseVals, v)
+					}
+				}
+				if os.Getenv("GVC_CASEREST") != "" {
+					e.caseRest = true
+				}
+				if ph := os.Getenv("GVC_PHASE"); ph != "" {
+					fmt.Sscan(ph, &e.phase)
+				}
 				if err := e.Encode(); err != nil {
 					fmt.Println("ERROR:", err)
 				}
@@ -133,7 +146,11 @@ func run(args []string) int {
 					ok++
 				} else {
 					bad++
-					fmt.Printf("  %-7s %s {%s} %s %.2fs %s\n", o.Result, o.Name, o.Case, o.Solver, o.TimeS, firstLine(o.Model))
+					nm := o.Name
+					if len(nm) > 260 {
+						nm = nm[:80] + " ... " + nm[len(nm)-170:]
+					}
+					fmt.Printf("  %-7s %s {%s} %s %.2fs %s\n", o.Result, nm, o.Case, o.Solver, o.TimeS, firstLine(o.Model))
 				}
 			}
 			fmt.Printf("%s: %d/%d obligations discharged (%d cases)\n", name, ok, len(r.Obls), r.Cases)
